@@ -635,6 +635,13 @@ class ScalarType(GraphQLLeafType, NamedType):
                     return self._parse_literal(node, variables or {})
                 return self.parse(node.value)
             except AttributeError:
+                if not hasattr(node, "value"):
+                    # List and object literals carry no scalar value.
+                    raise ScalarParsingError(
+                        "%s cannot represent %s"
+                        % (self.name, node.__class__.__name__),
+                        [node],
+                    )
                 return self.parse(node.value)
         except (ValueError, TypeError) as err:
             raise ScalarParsingError(str(err), [node]) from err
